@@ -17,7 +17,15 @@ DENY = {
     "zvt::feig::sequences::convert_dir",      # C11-a/b: the id table is read from this body
 }
 MAX_BLOCKS = 160
+MAX_ASYNC_BLOCKS = 700
 MAX_DEPTH = 3
+# private async functions that exist on the pinned tree: the client rules analyse them in place, by name
+DENY_ASYNC = {
+    "zvt_feig_terminal::feig::Feig::" + n for n in (
+        "get_system_info", "set_terminal_id", "initialize", "get_pending", "cancel_pending", "end_of_day",
+        "cancel_transaction_by_receipt_no")
+}
+POLL = "core::future::future::Future::poll"
 BLOCK_KEYS = ("to", "unwind", "else", "resume", "drop", "imag")
 
 
@@ -157,4 +165,228 @@ def inline_crate(bodies):
                                      "rv": {"r": "use", "o": copy.deepcopy(a)}, "sp": t.get("sp"), "inl": cn})
             blk["term"] = {"t": "goto", "to": boff, "sp": t.get("sp"), "inlined_call": cn}
             done.setdefault(caller["id"], []).append(cn)
+    _mark_absorbed(bodies, {c for v in done.values() for c in v})
     return done
+
+
+def _mark_absorbed(bodies, helper_ids):
+    """A private helper whose every call was spliced into its callers is fully accounted for there: flag its
+    own body (and nested closures / coroutine) so that whole-crate rules do not see the code twice."""
+    if not helper_ids:
+        return
+    still_called = set()
+    for b in bodies:
+        if b.get("absorbed"):
+            continue
+        for blk in b["blocks"]:
+            t = blk["term"]
+            if t["t"] == "call":
+                n = _callee_name(t)
+                if n in helper_ids and not (b["id"] == n or b["id"].startswith(n + "::")):
+                    still_called.add(n)
+    for b in bodies:
+        for h in helper_ids - still_called:
+            if b["id"] == h or b["id"].startswith(h + "::"):
+                b["absorbed"] = True
+
+
+# ---------------------------------------------------------------- private async helpers
+def async_eligible(raw, by_id):
+    """raw: the outer body of an `async fn`.  Returns its coroutine body if the function is a private,
+    non-trait async helper that did not exist on the pinned tree."""
+    if raw is None or raw["defkind"] not in ("Fn", "AssocFn"):
+        return None
+    if raw.get("impl_trait") or raw.get("in_trait") or raw["id"] in DENY_ASYNC:
+        return None
+    if "mock_inner" in raw["id"] or "::test" in raw["id"] or raw.get("vis", "Public") == "Public":
+        return None
+    inner = by_id.get(raw["id"] + "::{closure#0}")
+    if inner is None or not str(inner.get("coroutine_kind", "")).startswith("Desugared(Async"):
+        return None
+    if len(inner["blocks"]) > MAX_ASYNC_BLOCKS:
+        return None
+    return inner
+
+
+def _single_defs(body):
+    d = {}
+    for i, blk in enumerate(body["blocks"]):
+        for st in blk["stmts"]:
+            if st.get("s") == "assign" and not st["p"]["p"]:
+                d.setdefault(st["p"]["l"], []).append(("assign", i, st))
+        t = blk["term"]
+        if t["t"] == "call" and not t["dest"]["p"]:
+            d.setdefault(t["dest"]["l"], []).append(("call", i, t))
+    return d
+
+
+def _op_local(o):
+    for k in ("c", "m"):
+        if k in o:
+            return o[k]["l"] if not [e for e in o[k]["p"] if e != "deref"] else None
+    return None
+
+
+def _chase_future(body, defs, local, eligible, depth=0):
+    """Follow pin/ref/move/into_future plumbing from the operand of Future::poll back to the call that
+    created the future.  -> (block, terminator) or None."""
+    while depth < 12:
+        depth += 1
+        ds = defs.get(local, [])
+        if len(ds) != 1:
+            return None
+        kind, bb, x = ds[0]
+        if kind == "assign":
+            rv = x["rv"]
+            if rv["r"] == "use":
+                local = _op_local(rv["o"])
+            elif rv["r"] in ("ref", "rawptr"):
+                if [e for e in rv["p"]["p"] if e != "deref"]:
+                    return None
+                local = rv["p"]["l"]
+            else:
+                return None
+            if local is None:
+                return None
+            continue
+        n = _callee_name(x)
+        if n in eligible:
+            return bb, x
+        raw_n = (x.get("f") or {}).get("n")
+        if raw_n in ("core::pin::Pin::<Ptr>::new_unchecked", "core::future::into_future::IntoFuture::into_future") and x["args"]:
+            local = _op_local(x["args"][0])
+            if local is None:
+                return None
+            continue
+        return None
+    return None
+
+
+def inline_async(bodies):
+    by_id = {b["id"]: b for b in bodies}
+    eligible = {}
+    for b in bodies:
+        inner = async_eligible(b, by_id)
+        if inner is not None:
+            eligible[b["id"]] = (copy.deepcopy(b), copy.deepcopy(inner))
+    done = {}
+    if not eligible:
+        return done
+    for caller in bodies:
+        if "mock_inner" in caller["id"] or not caller.get("coroutine_kind"):
+            continue
+        rounds = 0
+        progress = True
+        while progress and rounds < MAX_DEPTH:
+            progress = False
+            rounds += 1
+            defs = _single_defs(caller)
+            for i in range(len(caller["blocks"])):
+                pt = caller["blocks"][i]["term"]
+                if pt["t"] != "call" or (pt.get("f") or {}).get("n") != POLL or pt.get("to") is None or not pt["args"]:
+                    continue
+                pin = _op_local(pt["args"][0])
+                if pin is None:
+                    continue
+                found = _chase_future(caller, defs, pin, eligible)
+                if found is None:
+                    continue
+                cbb, ct = found
+                cn = _callee_name(ct)
+                if cn == caller.get("root") or caller["id"].startswith(cn + "::"):
+                    continue                        # recursion
+                outer, inner = eligible[cn]
+                targs = (ct.get("f") or {}).get("a") or []
+                tmap = None
+                if targs:
+                    gens = outer.get("generics")
+                    if gens is None or len(gens) != len(targs):
+                        continue
+                    tmap = dict(zip(gens, targs))
+                argc = outer.get("arg_count", 0)
+                if len(ct["args"]) != argc:
+                    continue
+                # upvar k of the coroutine = parameter k+1 of the async fn (checked on the outer body)
+                order = None
+                for blk in outer["blocks"]:
+                    for st in blk["stmts"]:
+                        if st.get("s") == "assign" and st["p"]["l"] == 0 and st["rv"]["r"] == "agg" and st["rv"].get("kind") == "coroutine":
+                            order = [_op_local(o) for o in st["rv"]["ops"]]
+                if order is None or any(o is None or not (1 <= o <= argc) for o in order):
+                    continue
+                # ---- captured arguments: fresh locals assigned where the future was created
+                ubase = len(caller["locals"])
+                for k in range(argc):
+                    nl = copy.deepcopy(outer["locals"][1 + k])
+                    if tmap:
+                        nl["ty"] = _subst(nl.get("ty"), tmap)
+                    nl["inlined_from"] = cn
+                    caller["locals"].append(nl)
+                cblk = caller["blocks"][cbb]
+                for k, a in enumerate(ct["args"]):
+                    cblk["stmts"].append({"s": "assign", "p": {"l": ubase + k, "p": []},
+                                          "rv": {"r": "use", "o": copy.deepcopy(a)}, "sp": ct.get("sp"), "inl": cn})
+                cblk["term"] = {"t": "goto", "to": ct["to"], "sp": ct.get("sp"), "inlined_call": cn}
+                upvar_local = [ubase + (p_ - 1) for p_ in order]
+                # ---- the coroutine body replaces the poll
+                loff = len(caller["locals"])
+                boff = len(caller["blocks"])
+                for loc in inner["locals"]:
+                    nl = copy.deepcopy(loc)
+                    if tmap:
+                        nl["ty"] = _subst(nl.get("ty"), tmap)
+                    nl["inlined_from"] = cn
+                    caller["locals"].append(nl)
+
+                def lmap(l, o=loff):
+                    return 2 if l == 2 else l + o       # the task context is the caller's
+
+                def bmap(b_, o=boff):
+                    return b_ + o
+                dest = pt["dest"]
+                ready_t = pt["to"]
+                nb0 = caller["blocks"][pt["to"]]
+                if nb0["term"]["t"] == "switch":
+                    for val, tb in nb0["term"]["targets"]:
+                        if val == 0:
+                            ready_t = None if any(st.get("s") == "assign" and st["p"]["l"] != nb0["term"]["d"].get("m", nb0["term"]["d"].get("c", {})).get("l")
+                                                  for st in nb0["stmts"]) else tb
+                    if ready_t is None:
+                        ready_t = pt["to"]
+                for k, blk in enumerate(inner["blocks"]):
+                    nb = _remap(blk, lmap, bmap)
+                    if tmap:
+                        nb = _subst(nb, tmap)
+                    nb = _env_places(nb, loff + 1, upvar_local)
+                    if nb["term"]["t"] == "return":
+                        nb["stmts"].append({"s": "assign", "p": copy.deepcopy(dest),
+                                            "rv": {"r": "agg", "kind": "adt", "n": "core::task::poll::Poll", "a": [],
+                                                   "variant": 0, "vname": "Ready", "fields": ["0"],
+                                                   "ops": [{"m": {"l": loff, "p": []}}]},
+                                            "sp": pt.get("sp"), "inl": cn})
+                        nb["term"] = {"t": "goto", "to": ready_t, "sp": pt.get("sp")}
+                    caller["blocks"].append(nb)
+                caller["blocks"][i]["term"] = {"t": "goto", "to": boff, "sp": pt.get("sp"), "inlined_call": cn}
+                done.setdefault(caller["id"], []).append(cn)
+                progress = True
+                break           # block / local tables changed: recompute the definitions
+    _mark_absorbed(bodies, {c for v in done.values() for c in v})
+    return done
+
+
+def _env_places(j, env_local, upvar_local):
+    """Rewrite `(_env.k).rest` (captured variable k of the inlined coroutine) to the fresh local that holds
+    the corresponding argument."""
+    if isinstance(j, list):
+        return [_env_places(x, env_local, upvar_local) for x in j]
+    if not isinstance(j, dict):
+        return j
+    if "l" in j and "p" in j and isinstance(j["p"], list) and j["l"] == env_local:
+        proj = list(j["p"])
+        k = 0
+        while k < len(proj) and proj[k] == "deref":
+            k += 1
+        if k < len(proj) and isinstance(proj[k], dict) and "f" in proj[k] and proj[k]["f"] < len(upvar_local):
+            return {"l": upvar_local[proj[k]["f"]], "p": [_env_places(x, env_local, upvar_local) for x in proj[k + 1:]]}
+        return j
+    return {k_: (v if k_ in ("ty", "from", "of", "dty", "fty", "f", "k") else _env_places(v, env_local, upvar_local)) for k_, v in j.items()}
